@@ -122,6 +122,9 @@ func belongs(o *Obligation, con *Contract, ps *propSpec) bool {
 	if !ps.kinds(o.Kind) {
 		return false
 	}
+	if o.Kind == "pre" && con != nil && con.flag("nopre") {
+		return false // callee preconditions at the call sites of this function are assumed (listed in the evidence)
+	}
 	if ps.allFns {
 		// a function whose panic-freedom is not claimed (flag nosafety) contributes only the clauses tagged
 		// with the property
@@ -602,6 +605,11 @@ func (cr *checkRun) writeEvidenceFull(verif string, violations, total, discharge
 		"recursion: callee contracts are assumed at recursive calls (partial correctness)",
 		"go/packages, go/ssa (x/tools v0.29.0), the SSA->SMT translator in /verif/cmd/yqv and the spec library in /verif/spec are trusted",
 	)
+	for _, n := range cr.fns {
+		if c := cr.P.getContract(n); c != nil && c.flag("nopre") {
+			assumptions = append(assumptions, "assumed, not checked: the preconditions of the functions "+n+" calls hold at its call sites (flag nopre)")
+		}
+	}
 	for _, n := range cr.skipped {
 		assumptions = append(assumptions, "not covered: "+n+" is under contract for other properties but its panic-freedom is not claimed (flag nosafety)")
 	}
